@@ -434,3 +434,62 @@ theorem ofTree_fresh (t : T) (hw : (ids t).Nodup) (k : Nat) (hk : k ∉ ids t) :
     rw [this.2] at hmem; simp [Heap.empty] at hmem
 
 end DendroModel.C03.HeapAux
+
+namespace DendroModel.C03.HeapAux
+open DendroModel DendroModel.C03
+
+/- generic attachment of a represented subtree `w` (root id `k`): as `attach_repr`, with `w` in place of the fresh leaf -/
+mutual
+theorem attachSub_repr (h h' : Heap) (p k : Nat) (w : T) (g : List T → List T)
+    (hwk : w.id = k) (hw' : Repr h' (some p) w)
+    (hoth : ∀ x, x ≠ k → h'.par x = h.par x) (hoch : ∀ x, x ≠ p → x ≠ k → h'.ch x = h.ch x)
+    (hp : ∀ cs : List T, h.ch p = cs.map T.id → h'.ch p = (g cs).map T.id)
+    (hg : ∀ (hh : Heap) (q : Option Nat) (cs : List T), ReprL hh q cs → Repr hh q w → ReprL hh q (g cs)) :
+    ∀ (q : Option Nat) (t : T), Repr h q t → (ids t).Nodup → k ∉ ids t →
+      Repr h' q (modify p (fun n => n.withCs (g n.cs)) t)
+  | q, .node j x l s cs, hr, hnd, hkn => by
+      simp only [ids, List.nodup_cons] at hnd
+      simp only [ids, List.mem_cons, not_or] at hkn
+      simp only [Repr] at hr
+      have hjk : j ≠ k := fun e => hkn.1 e.symm
+      simp only [modify]
+      split
+      · rename_i e
+        have hjp : j = p := by simpa using e
+        subst hjp
+        simp only [T.withCs, T.cs, Repr]
+        refine ⟨by rw [hoth j hjk]; exact hr.1, hp cs hr.2.1, ?_⟩
+        apply hg
+        · apply agreeL h h' (some j) cs _ hr.2.2
+          intro y hy
+          have hyk : y ≠ k := fun e => hkn.2 (e ▸ hy)
+          have hyp : y ≠ j := fun e => hnd.1 (e ▸ hy)
+          exact ⟨hoth y hyk, hoch y hyp hyk⟩
+        · exact hw'
+      · rename_i e
+        have hjp : j ≠ p := by simpa using e
+        simp only [Repr]
+        refine ⟨by rw [hoth j hjk]; exact hr.1, ?_, ?_⟩
+        · rw [hoch j hjp hjk, hr.2.1, modifyL_map_id]; intro y; cases y; rfl
+        · exact attachSubL_repr h h' p k w g hwk hw' hoth hoch hp hg (some j) cs hr.2.2 hnd.2 hkn.2
+theorem attachSubL_repr (h h' : Heap) (p k : Nat) (w : T) (g : List T → List T)
+    (hwk : w.id = k) (hw' : Repr h' (some p) w)
+    (hoth : ∀ x, x ≠ k → h'.par x = h.par x) (hoch : ∀ x, x ≠ p → x ≠ k → h'.ch x = h.ch x)
+    (hp : ∀ cs : List T, h.ch p = cs.map T.id → h'.ch p = (g cs).map T.id)
+    (hg : ∀ (hh : Heap) (q : Option Nat) (cs : List T), ReprL hh q cs → Repr hh q w → ReprL hh q (g cs)) :
+    ∀ (q : Option Nat) (cs : List T), ReprL h q cs → (idsL cs).Nodup → k ∉ idsL cs →
+      ReprL h' q (modifyL p (fun n => n.withCs (g n.cs)) cs)
+  | _, [], _, _, _ => by simp [modifyL, ReprL]
+  | q, c :: cs, hr, hnd, hkn => by
+      simp only [idsL] at hnd
+      simp only [idsL, List.mem_append, not_or] at hkn
+      simp only [ReprL] at hr
+      have hndc := (List.nodup_append.mp hnd).1
+      have hndcs := (List.nodup_append.mp hnd).2.1
+      simp only [modifyL, ReprL]
+      exact ⟨attachSub_repr h h' p k w g hwk hw' hoth hoch hp hg q c hr.1 hndc hkn.1,
+             attachSubL_repr h h' p k w g hwk hw' hoth hoch hp hg q cs hr.2 hndcs hkn.2⟩
+end
+
+
+end DendroModel.C03.HeapAux
